@@ -181,7 +181,10 @@ fn reader_entry(name: &str, input: &[u8], rng: &mut Rng, rt: &tokio::runtime::Ru
         }
         "read_message_into" => {
             let mut rd = ChunkyReader::new(input, rng.fork(2), 1 + rng.usize_below(4096));
-            let mut buf = vec![0x55u8; rng.usize_below(100)];
+            // a reused per-connection buffer: stale content and spare capacity left by a larger earlier frame
+            let mut buf = Vec::with_capacity(rng.usize_below(70_000));
+            let stale = rng.usize_below(100);
+            buf.extend(std::iter::repeat(0x55u8).take(stale));
             let r = match repe::read_message_into(&mut rd, &mut buf) {
                 Ok(()) => from_buf(&buf),
                 Err(e) => Outcome::Err(e.to_string()),
@@ -195,7 +198,8 @@ fn reader_entry(name: &str, input: &[u8], rng: &mut Rng, rt: &tokio::runtime::Ru
         }),
         "read_message_into_async" => rt.block_on(async {
             let mut rd: &[u8] = input;
-            let mut buf = vec![0x55u8; 3];
+            let mut buf = Vec::with_capacity(rng.usize_below(70_000));
+            buf.extend_from_slice(&[0x55u8; 3]);
             let r = match repe::async_io::read_message_into_async(&mut rd, &mut buf).await {
                 Ok(()) => from_buf(&buf),
                 Err(e) => Outcome::Err(e.to_string()),
